@@ -186,6 +186,25 @@ func checkC12(c *Case, st *Stats) string {
 			return fmt.Sprintf("accessor mode set on a copy of a Config: %d results, plain mode %d", len(gotD), len(plain.got))
 		}
 	}
+	// Several Configs in one call: the first one counts (its accessor mode too, whatever the later ones say or leave unsaid)
+	if len(c.Path)%2 == 1 {
+		plainCfg, accCfg := BuildConfig(nil, true, false), BuildConfig(nil, true, true)
+		var empty jsonpath.Config
+		for shape, cfgs := range [][]jsonpath.Config{{accCfg, plainCfg}, {accCfg, empty}, {plainCfg, accCfg}} {
+			got, err := jsonpath.Retrieve(c.Path, c.Document(), cfgs...)
+			st.Eval(1)
+			if (err == nil) != (plain.err == nil) || len(got) != len(plain.got) {
+				return fmt.Sprintf("Retrieve with two Configs (shape %d): (%d values, %v), with one Config (%d values, %v)", shape, len(got), err, len(plain.got), plain.err)
+			}
+			for i := range got {
+				_, isAcc := got[i].(jsonpath.Accessor)
+				if wantAcc := shape < 2; isAcc != wantAcc && !docHoldsAccessors {
+					return fmt.Sprintf("Retrieve with two Configs (shape %d: accessor mode set on the first = %v): result %d is %T", shape, wantAcc, i, got[i])
+				}
+			}
+		}
+		st.Class("two-configs-in-one-call")
+	}
 	// The mode of a parsed function is the mode of the Config it was parsed with, at that time: a
 	// caller that keeps its Configs in a slice (Parse(path, configs...)) and changes an element
 	// afterwards does not change functions it parsed before.
